@@ -6,7 +6,8 @@ record = {seqid, source, featuretype, start, end, score, strand, frame  (all str
 """
 PLAIN = "abcdefghijklmnopqrstuvwxyzABCDEFGHIJKLMNOPQRSTUVWXYZ0123456789_.:-+|/()[]*#@!~'"
 UNICODE_BLANKS = ["\u00a0", "\u2003", "\u202f", "\u3000"]
-NONASCII = ["é", "ß", "漢", "Ω", "ї", "\U0001F9EC", "µ", "ñ"]
+# (also text that Unicode normalisation would rewrite: a decomposed accent, ANGSTROM SIGN, OHM SIGN - values are opaque)
+NONASCII = ["é", "ß", "漢", "Ω", "ї", "\U0001F9EC", "µ", "ñ", "e\u0301", "\u212b", "\u2126"]
 # reserved set of the GFF3 grammar (written as upper-case percent-escapes)
 RESERVED_LIST = ["\t", "\n", "\r", "%", ";", "=", "&", ","] + [chr(i) for i in (0, 1, 7, 8, 11, 12, 27, 31)] + [chr(127)]
 KEYCHARS_FIRST = "abcdefghijklmnopqrstuvwxyzABCDEFGHIJKLMNOPQRSTUVWXYZ_"
